@@ -43,6 +43,31 @@ def main():
     for n in man.get('not_applicable', []):
         rows.append('| %s | not claimed | - | %s |' % (n['property_id'], n['reason'][:90]))
     s = block('status', '\n'.join(rows), s)
+    # per-property as-built notes from the evidence files (rule + assumptions are written by the checks themselves)
+    out = []
+    for c in man['checks']:
+        pid = c['property_id']
+        ep = os.path.join(V, 'evidence', pid + '.json')
+        if not os.path.exists(ep):
+            continue
+        ev = json.load(open(ep))
+        cov = ev['coverage']
+        out.append('**%s** (%s; last %s run: %s TLC states, %s cases executed against pydl, %s distinct non-trivial).' % (
+            pid, c['level_claimed']['category'], ev['tier'], cov.get('states', '-'), cov.get('traces_validated_against_impl', '-'),
+            cov.get('distinct_nontrivial', '-')))
+        out.append('Technique: ' + c.get('technique', ''))
+        out.append('')
+        out.append('What a case is: ' + str(cov.get('rule', '')).strip())
+        out.append('')
+        if cov.get('explanation'):
+            out.append('Why the level is "other": ' + str(cov['explanation']).strip())
+            out.append('')
+        if ev.get('assumptions'):
+            out.append('Assumed / left open / not covered:')
+            for a in ev['assumptions']:
+                out.append('* ' + str(a).strip())
+        out.append('')
+    s = block('asbuilt', '\n'.join(out), s)
     open(os.path.join(V, 'DESIGN.md'), 'w').write(s)
     print('DESIGN.md tables regenerated')
 
